@@ -1,7 +1,9 @@
 import XpmVerif.Model.Serial
 import XpmVerif.Proofs.Sort
+import XpmVerif.Proofs.IsDefault
 /-! Local congruence of identifiers: the raw and full identifiers of a node, and its collected
-    pre-tasks, only depend on the nodes reachable from it (`succAll`-closed set), up to `sealed`. -/
+    pre-tasks, only depend on the nodes reachable from it (`succAll`-closed set that also contains the
+    configurations of the declared defaults of its members), up to `sealed`. -/
 namespace XpmVerif.Serial
 open XpmVerif.Ident
 
@@ -95,33 +97,93 @@ theorem removeMeta_congr_on (mt mt' : Nat → Option Bool) (v : Val)
     simp only [removeMeta, hf]
   | _ => simp only [removeMeta]
 
-theorem included_congr_on (mt mt' : Nat → Option Bool) (a : Arg)
-    (h : ∀ m ∈ cfgRefs a.value, mt m = mt' m) : included mt a = included mt' a := by
-  have hrm := removeMeta_congr_on mt mt' a.value h
-  unfold included
-  rw [hrm]
+/-- `refsAll` (items of the value that the encoder can see) is contained in `cfgRefs`. -/
+theorem refsAll_sub_cfgRefs {m : Nat} {v : Val} (h : m ∈ refsAll v) : m ∈ cfgRefs v := by
+  induction v using Val.rec (motive_2 := fun l => ∀ ks : List (List Nat), (m ∈ refsAllL l → m ∈ cfgRefsL l) ∧
+      (m ∈ refsPairs noMeta ks l → m ∈ cfgRefsL l)) with
+  | none => simp [refsAll, refsVal] at h
+  | bool b => simp [refsAll, refsVal] at h
+  | int i => simp [refsAll, refsVal] at h
+  | float b => simp [refsAll, refsVal] at h
+  | str s => simp [refsAll, refsVal] at h
+  | enum s => simp [refsAll, refsVal] at h
+  | path s => simp [refsAll, refsVal] at h
+  | ref n => simpa [refsAll, refsVal, cfgRefs] using h
+  | list l ih => rw [refsAll_list] at h; simp only [cfgRefs]; exact (ih []).1 h
+  | dict ks vs ih => simp only [refsAll, refsVal] at h; simp only [cfgRefs]; exact (ih ks).2 h
+  | nil => simp [refsAllL, refsVals, refsPairs]
+  | cons v vs ih1 ih2 =>
+    rename_i ks
+    refine ⟨?_, ?_⟩
+    · intro h
+      rw [refsAllL_cons, List.mem_append] at h
+      simp only [cfgRefsL, List.mem_append]
+      exact h.imp ih1 (ih2 []).1
+    · intro h
+      cases ks with
+      | nil => simp [refsPairs] at h
+      | cons k ks =>
+        simp only [refsPairs, dropped_noMeta, Bool.false_eq_true, if_false, List.mem_append] at h
+        simp only [cfgRefsL, List.mem_append]
+        exact h.imp ih1 (ih2 ks).2
+
+theorem refsVal_sub_cfgRefs {mt : Nat → Option Bool} {m : Nat} {v : Val} (h : m ∈ refsVal mt v) : m ∈ cfgRefs v :=
+  refsAll_sub_cfgRefs (refsVal_sub_refsAll mt m v h)
+
+/-- the configurations of the declared default of an argument. -/
+def dfltRefs (a : Arg) : List Nat := match a.default with | some d => cfgRefs d | none => []
+
+/-- the configurations of the declared defaults of a node. -/
+def nodeDfltRefs (nd : Node) : List Nat := (nd.args.map dfltRefs).flatten
+
+theorem mem_nodeDfltRefs_of_mem {nd : Node} {a : Arg} {m : Nat} (ha : a ∈ nd.args) (hm : m ∈ dfltRefs a) :
+    m ∈ nodeDfltRefs nd :=
+  List.mem_flatten.mpr ⟨_, List.mem_map.mpr ⟨a, ha, rfl⟩, hm⟩
+
+theorem included_congr_on (ceq ceq' : Nat → Nat → Bool) (mt mt' : Nat → Option Bool) (a : Arg)
+    (h : ∀ m ∈ cfgRefs a.value, mt m = mt' m)
+    (hq : ∀ x ∈ dfltRefs a, ∀ y ∈ cfgRefs a.value, ceq x y = ceq' x y) :
+    included ceq mt a = included ceq' mt' a := by
+  have hd : defaultOut ceq mt a = defaultOut ceq' mt' a := by
+    unfold defaultOut
+    cases hdf : a.default with
+    | none => rfl
+    | some d =>
+      simp only
+      rw [isDefault_removeMeta, isDefault_removeMeta,
+        isDefault_congr_mt ceq mt mt' d a.value (fun m hm => h m (refsAll_sub_cfgRefs hm)),
+        isDefault_congr_ceq ceq ceq' mt' d a.value (fun x hx y hy =>
+          hq x (by simp only [dfltRefs, hdf]; exact refsAll_sub_cfgRefs hx) y (refsVal_sub_cfgRefs hy))]
+  unfold included ignoredOut metaOut
+  rw [hd]
   cases hv : a.value with
   | ref n =>
     have := h n (by simp [hv, cfgRefs])
     simp only [this]
   | _ => rfl
 
-theorem argStream_congr_on (cfg cfg' : Nat → List Nat) (mt mt' : Nat → Option Bool) (a : Arg)
-    (h : ∀ m ∈ cfgRefs a.value, cfg m = cfg' m ∧ mt m = mt' m) : argStream cfg mt a = argStream cfg' mt' a := by
-  simp only [argStream, included_congr_on mt mt' a (fun m hm => (h m hm).2), encVal_congr_on cfg cfg' mt mt' a.value h]
+theorem argStream_congr_on (cfg cfg' : Nat → List Nat) (ceq ceq' : Nat → Nat → Bool) (mt mt' : Nat → Option Bool) (a : Arg)
+    (h : ∀ m ∈ cfgRefs a.value, cfg m = cfg' m ∧ mt m = mt' m)
+    (hq : ∀ x ∈ dfltRefs a, ∀ y ∈ cfgRefs a.value, ceq x y = ceq' x y) :
+    argStream cfg ceq mt a = argStream cfg' ceq' mt' a := by
+  simp only [argStream, included_congr_on ceq ceq' mt mt' a (fun m hm => (h m hm).2) hq,
+    encVal_congr_on cfg cfg' mt mt' a.value h]
 
-theorem nodeStream_congr_on (cfg cfg' : Nat → List Nat) (mt mt' : Nat → Option Bool) (self : Nat) (nd nd' : Node)
+theorem nodeStream_congr_on (cfg cfg' : Nat → List Nat) (ceq ceq' : Nat → Nat → Bool) (mt mt' : Nat → Option Bool)
+    (self : Nat) (nd nd' : Node)
     (hs : NodeSame nd nd')
-    (h : ∀ m ∈ argRefs nd ++ optL nd.task, cfg m = cfg' m ∧ mt m = mt' m) :
-    nodeStream cfg mt self nd = nodeStream cfg' mt' self nd' := by
+    (h : ∀ m ∈ argRefs nd ++ optL nd.task, cfg m = cfg' m ∧ mt m = mt' m)
+    (hq : ∀ x ∈ nodeDfltRefs nd, ∀ y ∈ argRefs nd, ceq x y = ceq' x y) :
+    nodeStream cfg ceq mt self nd = nodeStream cfg' ceq' mt' self nd' := by
   obtain ⟨h1, h2, h3, _, _, _⟩ := hs
-  have hargs : (sortBy (fun a b => bytesLe a.name b.name) nd.args).map (argStream cfg mt)
-      = (sortBy (fun a b => bytesLe a.name b.name) nd.args).map (argStream cfg' mt') := by
+  have hargs : (sortBy (fun a b => bytesLe a.name b.name) nd.args).map (argStream cfg ceq mt)
+      = (sortBy (fun a b => bytesLe a.name b.name) nd.args).map (argStream cfg' ceq' mt') := by
     apply List.map_congr_left
     intro a ha
     have ha' : a ∈ nd.args := (XpmVerif.Ident.sortBy_perm _ nd.args).mem_iff.mp ha
-    exact argStream_congr_on cfg cfg' mt mt' a
+    exact argStream_congr_on cfg cfg' ceq ceq' mt mt' a
       (fun m hm => h m (List.mem_append.mpr (Or.inl (mem_argRefs_of_mem ha' hm))))
+      (fun x hx y hy => hq x (mem_nodeDfltRefs_of_mem ha' hx) y (mem_argRefs_of_mem ha' hy))
   simp only [nodeStream, ← h1, ← h2, ← h3, hargs]
   cases ht : nd.task with
   | none => rfl
@@ -133,6 +195,7 @@ theorem nodeStream_congr_on (cfg cfg' : Nat → List Nat) (mt mt' : Nat → Opti
 
 theorem rawAt_congr_on {D : Type} (hc : HC D) (g g' : Graph) (S : Nat → Prop)
     (hclosed : ∀ n, S n → ∀ m ∈ succAll g n, S m)
+    (hdflt : ∀ n, S n → ∀ m ∈ nodeDfltRefs (g.node n), S m)
     (hagree : ∀ n, S n → NodeSame (g.node n) (g'.node n)) :
     ∀ fuel stack n, S n → rawAt hc g' fuel stack n = rawAt hc g fuel stack n := by
   intro fuel
@@ -140,27 +203,40 @@ theorem rawAt_congr_on {D : Type} (hc : HC D) (g g' : Graph) (S : Nat → Prop)
   | zero => intro stack n _; simp only [rawAt]
   | succ fuel ih =>
     intro stack n hn
+    have hcfg : ∀ m, S m →
+        ctxCfg (n :: stack) (fun m => hc.emb (rawAt hc g fuel (n :: stack) m)) m
+          = ctxCfg (n :: stack) (fun m => hc.emb (rawAt hc g' fuel (n :: stack) m)) m := by
+      intro m hm
+      unfold ctxCfg
+      split
+      · rfl
+      · show hc.emb (rawAt hc g fuel (n :: stack) m) = hc.emb (rawAt hc g' fuel (n :: stack) m)
+        rw [ih (n :: stack) m hm]
+    have hSv : ∀ m ∈ argRefs (g.node n), S m := fun m hm =>
+      hclosed n hn m (by simp only [succAll, List.mem_append]; exact Or.inl (Or.inl (Or.inl hm)))
     simp only [rawAt]
     congr 1
     symm
-    apply nodeStream_congr_on _ _ _ _ _ _ _ (hagree n hn)
-    intro m hm
-    have hSm : S m := hclosed n hn m (by
-      simp only [succAll, List.mem_append] at hm ⊢
-      rcases hm with hm | hm
-      · exact Or.inl (Or.inl (Or.inl hm))
-      · exact Or.inl (Or.inl (Or.inr hm)))
-    refine ⟨?_, ?_⟩
-    · rw [ih (n :: stack) m hSm]
-    · exact (hagree m hSm).2.2.2.1
+    apply nodeStream_congr_on _ _ _ _ _ _ _ _ _ (hagree n hn)
+    · intro m hm
+      have hSm : S m := hclosed n hn m (by
+        simp only [succAll, List.mem_append] at hm ⊢
+        rcases hm with hm | hm
+        · exact Or.inl (Or.inl (Or.inl hm))
+        · exact Or.inl (Or.inl (Or.inr hm)))
+      exact ⟨hcfg m hSm, (hagree m hSm).2.2.2.1⟩
+    · intro x hx y hy
+      unfold ctxEq
+      rw [hcfg x (hdflt n hn x hx), hcfg y (hSv y hy)]
 
 theorem rawId_congr_on {D : Type} (hc : HC D) (g g' : Graph) (S : Nat → Prop)
     (hsize : g.size = g'.size)
     (hclosed : ∀ n, S n → ∀ m ∈ succAll g n, S m)
+    (hdflt : ∀ n, S n → ∀ m ∈ nodeDfltRefs (g.node n), S m)
     (hagree : ∀ n, S n → NodeSame (g.node n) (g'.node n))
     (n : Nat) (hn : S n) : rawId hc g' n = rawId hc g n := by
   simp only [rawId, ← hsize]
-  exact rawAt_congr_on hc g g' S hclosed hagree _ _ n hn
+  exact rawAt_congr_on hc g g' S hclosed hdflt hagree _ _ n hn
 
 /-! ### the configuration walk -/
 
@@ -300,10 +376,11 @@ theorem collectPreTasks_congr_on (g g' : Graph) (S : Nat → Prop)
 theorem fullId_congr_on {D : Type} (hc : HC D) (g g' : Graph) (S : Nat → Prop)
     (hsize : g.size = g'.size)
     (hclosed : ∀ n, S n → ∀ m ∈ succAll g n, S m)
+    (hdflt : ∀ n, S n → ∀ m ∈ nodeDfltRefs (g.node n), S m)
     (hagree : ∀ n, S n → NodeSame (g.node n) (g'.node n))
     (root : Nat) (hr : S root) : fullId hc g' root = fullId hc g root := by
   obtain ⟨hcp, hcS⟩ := collectPreTasks_congr_on g g' S hsize hclosed hagree root hr
-  have hraw := rawId_congr_on hc g g' S hsize hclosed hagree
+  have hraw := rawId_congr_on hc g g' S hsize hclosed hdflt hagree
   have hinit : (g'.node root).initTasks = (g.node root).initTasks := (hagree root hr).2.2.2.2.2.symm
   have hpre : (collectPreTasks g root).map (rawId hc g') = (collectPreTasks g root).map (rawId hc g) :=
     List.map_congr_left (fun p hp => hraw p (hcS p hp))
